@@ -55,10 +55,10 @@ func (P *Prog) deepExitsD(fn *ssa.Function, through func(*ssa.Function) bool, de
 		for _, hx := range P.deepExitsD(h, through, depth+1, on) {
 			nx := &exitInfo{ret: x.ret, pred: x.pred, facts: x.facts.clone()}
 			for _, f := range hx.facts {
-				nx.facts.add(normFact(f.Pred.subst(m), f.Val))
+				nx.facts.add(normFact(P.inlineTrivialTerms(f.Pred.subst(m)), f.Val))
 			}
 			for _, r := range hx.results {
-				nx.results = append(nx.results, r.subst(m))
+				nx.results = append(nx.results, P.inlineTrivialTerms(r.subst(m)))
 			}
 			if ei := errIndex(fn); ei >= 0 && ei < len(nx.results) {
 				nx.errTerm = nx.results[ei]
